@@ -53,6 +53,11 @@ def run(ctx, rep):
     except Exception as e:
         import traceback; traceback.print_exc()
         rep.fail("R03.9", "engine", "initial skip analysis crashed: %r" % (e,), status="undecided")
+    try:
+        cropped_stream_position(prog, rep)
+    except Exception as e:
+        import traceback; traceback.print_exc()
+        rep.fail("R03.10", "engine", "stream position analysis crashed: %r" % (e,), status="undecided")
     zip_rule_everywhere(prog, rep)
     ext_constructors(prog, rep)
     from rules import axis
@@ -457,6 +462,91 @@ def zip_rule_everywhere(prog, rep, only_adt=None, rule="R03.6", floor=3):
         rep.floor(rule, "stream-pairing sites", n, floor)
     else:
         rep.analysed[rule + ":stream-pairing sites"] = n
+
+
+def cropped_stream_position(prog, rep):
+    CR = "embedded_graphics::iterator::contiguous::Cropped"
+    stream_position(prog, rep, "R03.10", "contiguous::Cropped::next:position", CR,
+                    {"x": "x", "y": "y", ("size", 0): "w", ("size", 1): "h", "row_skip": "k"},
+                    lambda st: st["y"] * (st["w"] + st["k"]) + st["x"], ("x", "w", "ge"))
+
+
+def stream_position(prog, rep, rule, key, CR, names, S, end, check_ret=True):
+    """R03.10 / R09.6 the re-cut colour stream emits the right source item: with S = y * (size.width + row_skip) + x the number of
+    source items consumed since `new`, every pulling path of `iterator::contiguous::Cropped::next` consumes exactly
+    S(after) - S(before) items (`next()` = 1, `nth(n)` = n + 1), pulls once, and returns that pull; a row change happens
+    only at x = width (the path has refuted x < width; x <= width is the invariant the same paths preserve).  So the item
+    handed out for crop position (c, r) is source item r * parent_width + c behind the initial skip (R03.9)."""
+    from mirq.paths import Paths, Unsupported
+    from mirq.poly import Poly, tree_to_poly, NotPolynomial
+    from rules.c10 import fold
+    RULE, KEY = rule, key
+    try:
+        nx = prog.method1(CR, "next", "core::iter::traits::iterator::Iterator")
+        fidx = {f["name"]: i for i, f in enumerate(prog.adts[CR]["variants"][0]["fields"])}
+        me = P(1, "self")
+        sf = lambda n: ("field", me, fidx[n])
+        syms = {(("field", sf(n[0]), n[1]) if isinstance(n, tuple) else sf(n)): v for n, v in names.items()}
+    except Exception as e:
+        rep.fail(RULE, KEY, "anchor lost: %s" % e, status="undecided")
+        return
+    try:
+        summs = Paths(prog, inline=lambda g: prog.is_new(g)).of(nx)
+    except Unsupported as e:
+        rep.fail(RULE, KEY, "cannot summarise: %s" % e, status="undecided", at=nx.span, fn=nx.path)
+        return
+    leaf = lambda t: syms.get(strip_refs(t)) if isinstance(t, tuple) else None
+    def poly(t):
+        return tree_to_poly(fold(strip_refs(t)), leaf)
+    bad, und, n_pull = [], [], 0
+    for sm in summs:
+        pulls = [e[1] for e in sm.calls() if e[1][1].split("::")[-1] in ("next", "nth") and e[1][3] and strip_refs(e[1][3][0]) == sf("iter")]
+        others = [e for e in sm.calls() if e[1] not in pulls]
+        if others:
+            und.append("unexpected effect %s" % show(others[0][1], maxd=2))
+            continue
+        if not pulls:
+            continue
+        n_pull += 1
+        before = {v: Poly.sym(v) for v in syms.values()}
+        after = dict(before)
+        try:
+            for w in sm.writes():
+                lv = strip_refs(w[1])
+                if lv in syms:
+                    after[syms[lv]] = poly(w[2])
+                elif not (lv[0] == "field" and strip_refs(lv[1]) == me):
+                    raise NotPolynomial("write to %s" % show(lv, maxd=3))
+            consumed = Poly()
+            for c in pulls:
+                consumed = consumed + (Poly.const(1) if c[1].split("::")[-1] == "next" else poly(c[3][1]) + Poly.const(1))
+        except NotPolynomial as e:
+            und.append("stream position not polynomial on a pulling path: %s" % e)
+            continue
+        delta = S(after) - S(before) - consumed
+        # a row change: the path has refuted x < w (with the invariant x <= w: x = w)
+        fs = [tuple(fold(strip_refs(x)) if isinstance(x, tuple) and x and isinstance(x[0], str) else x for x in fc) for fc in sm.facts]
+        ev, eb, emode = end          # at a row change the counter `ev` has reached its bound `eb` (a symbol or 0)
+        def is_b(t):
+            return (leaf(t) == eb) if isinstance(eb, str) else (isinstance(t, tuple) and t == ("const", eb))
+        at_end = any((fc[0] == "eq" and ((leaf(fc[1]) == ev and is_b(fc[2])) or (leaf(fc[2]) == ev and is_b(fc[1]))))
+                     or (emode == "ge" and fc[0] == "le" and is_b(fc[1]) and leaf(fc[2]) == ev)
+                     or (emode == "le" and fc[0] == "le" and leaf(fc[1]) == ev and is_b(fc[2])) for fc in fs)
+        ebp = Poly.sym(eb) if isinstance(eb, str) else Poly.const(eb)
+        if at_end:
+            delta = delta.subs(ev, ebp)
+        if len(pulls) != 1:
+            bad.append("a path pulls %d times from the source" % len(pulls))
+        elif not delta.is_zero():
+            bad.append("a pulling path consumes %s source item(s) but moves the stream position by %s" % (consumed, S(after) - S(before) if not at_end else (S(after) - S(before)).subs(ev, ebp)))
+        elif check_ret and strip_refs(sm.ret)[:4] != pulls[-1][:4]:
+            bad.append("a pulling path returns %s instead of the pulled item" % show(sm.ret, maxd=3))
+    if bad:
+        rep.fail(RULE, KEY, "; ".join(sorted(set(bad))[:2]), at=nx.span, fn=nx.path)
+    elif und or n_pull < 2:
+        rep.fail(RULE, KEY, "; ".join(sorted(set(und))[:2]) or "expected two pulling paths (%d)" % n_pull, status="undecided", at=nx.span, fn=nx.path)
+    else:
+        rep.ok(RULE, KEY, at=nx.span, fn=nx.path, detail={"pulling_paths": n_pull})
 
 
 def ext_constructors(prog, rep):
